@@ -159,7 +159,59 @@ func (r *EngRun) Apply(o EngOp) error {
 		}
 		tmp := map[string][]byte{}
 		dels := map[string]bool{}
+		// the transaction's own view: the committed state with its buffered writes laid over it (the last operation
+		// on a key wins), for point reads and for a scan; checked wherever the body scans, and before it ends
+		checkView := func() {
+			if err != nil || r.TxView != "" {
+				return
+			}
+			view := map[string][]byte{}
+			for k, v := range r.Model {
+				view[k] = v
+			}
+			for k, v := range tmp {
+				if v == nil {
+					v = []byte{}
+				}
+				view[k] = v
+			}
+			for k := range dels {
+				delete(view, k)
+			}
+			for _, s := range o.Sub {
+				if s.Kind == "scan" {
+					continue
+				}
+				got, gerr := tx.Get([]byte(s.Key))
+				want, ok := view[s.Key]
+				if ok && (gerr != nil || !bytes.Equal(got, want)) {
+					r.TxView = fmt.Sprintf("tx-own-write-not-read\ninside %s: tx.Get(%q) = (%q, %v), the transaction's latest write is a put of %q", o.String(), s.Key, clip(got), gerr, clip(want))
+				} else if !ok && gerr == nil {
+					r.TxView = fmt.Sprintf("tx-own-delete-not-read\ninside %s: tx.Get(%q) = %q, the transaction's latest operation on it is a delete", o.String(), s.Key, clip(got))
+				}
+			}
+			it := tx.NewIterator()
+			var got []string
+			for it.SeekToFirst(); it.Valid() && len(got) < 100; it.Next() {
+				if it.IsTombstone() {
+					continue
+				}
+				got = append(got, string(it.Key())+"="+string(clip(it.Value())))
+			}
+			var want []string
+			for k, v := range view {
+				want = append(want, k+"="+string(clip(v)))
+			}
+			sort.Strings(want)
+			if r.TxView == "" && strings.Join(got, ",") != strings.Join(want, ",") {
+				r.TxView = fmt.Sprintf("tx-scan-differs\ninside %s: the transaction's scan yields [%s], its own view is [%s]", o.String(), strings.Join(got, ","), strings.Join(want, ","))
+			}
+				}
 		for i, s := range o.Sub {
+			if s.Kind == "scan" {
+				checkView()
+				continue
+			}
 			if s.Kind == "put" {
 				v := []byte(fmt.Sprintf("v%d.%d", r.Step, i))
 				if s.Val != "" {
@@ -191,48 +243,7 @@ func (r *EngRun) Apply(o EngOp) error {
 				dels[s.Key] = true
 			}
 		}
-		// the transaction's own view before it ends: the committed state with its buffered writes laid over it (the
-		// last operation on a key wins), for point reads and for a scan
-		if err == nil && r.TxView == "" {
-			view := map[string][]byte{}
-			for k, v := range r.Model {
-				view[k] = v
-			}
-			for k, v := range tmp {
-				if v == nil {
-					v = []byte{}
-				}
-				view[k] = v
-			}
-			for k := range dels {
-				delete(view, k)
-			}
-			for _, s := range o.Sub {
-				got, gerr := tx.Get([]byte(s.Key))
-				want, ok := view[s.Key]
-				if ok && (gerr != nil || !bytes.Equal(got, want)) {
-					r.TxView = fmt.Sprintf("tx-own-write-not-read\ninside %s: tx.Get(%q) = (%q, %v), the transaction's latest write is a put of %q", o.String(), s.Key, clip(got), gerr, clip(want))
-				} else if !ok && gerr == nil {
-					r.TxView = fmt.Sprintf("tx-own-delete-not-read\ninside %s: tx.Get(%q) = %q, the transaction's latest operation on it is a delete", o.String(), s.Key, clip(got))
-				}
-			}
-			it := tx.NewIterator()
-			var got []string
-			for it.SeekToFirst(); it.Valid() && len(got) < 100; it.Next() {
-				if it.IsTombstone() {
-					continue
-				}
-				got = append(got, string(it.Key())+"="+string(clip(it.Value())))
-			}
-			var want []string
-			for k, v := range view {
-				want = append(want, k+"="+string(clip(v)))
-			}
-			sort.Strings(want)
-			if r.TxView == "" && strings.Join(got, ",") != strings.Join(want, ",") {
-				r.TxView = fmt.Sprintf("tx-scan-differs\ninside %s: the transaction's scan yields [%s], its own view is [%s]", o.String(), strings.Join(got, ","), strings.Join(want, ","))
-			}
-		}
+		checkView()
 		if o.Kind == "txa" {
 			// abandoned: never finished (keeps the transaction lock; only non-transactional calls may follow)
 			break
